@@ -7,7 +7,7 @@ from .state import State, dtype, key_alloc, key_card
 I = z3.IntSort()
 
 PURE_BUILTINS = {'len', 'range', 'isinstance', 'int', 'str', 'bool', 'min', 'max', 'abs', 'all', 'any', 'divmod', 'tuple',
-                 'old', 'implies', 'fresh', 'seq', 'dom', 'unchanged', 'type', 'iff', 'card', 'content', 'ite', 'is_none', 'val', 'prefix', 'cast', 'upd'}
+                 'old', 'implies', 'fresh', 'seq', 'dom', 'unchanged', 'type', 'iff', 'card', 'content', 'ite', 'is_none', 'val', 'prefix', 'cast', 'upd', 'elements', 'elements_if'}
 STR_METHODS = {'isupper': BOOL, 'islower': BOOL, 'upper': STR, 'lower': STR, 'startswith': BOOL, 'endswith': BOOL,
                'count': INT, 'isidentifier': BOOL, 'isdigit': BOOL, 'strip': STR, 'lstrip': STR, 'rstrip': STR,
                'encode': STR, 'decode': STR, 'find': INT, 'isalnum': BOOL, 'isalpha': BOOL, 'replace': STR, 'join': STR}
@@ -369,6 +369,15 @@ class CallMixin:
         v = self.coerce(self.ev1(e.args[2], st), xs.elem, st)
         yield SeqV(xs.elem, z3.Store(xs.arr, i.z, v.z), xs.n), st
 
+    def bi_elements(self, e, st):
+        """elements(xs) in a modifies clause: every object that is an element of the list (ownership of contents)"""
+        yield self.seq_of(self.ev1(e.args[0], st), st), st
+
+    def bi_elements_if(self, e, st):
+        c = self.truthy(self.ev1(e.args[0], st), st)
+        sq = self.seq_of(self.ev1(e.args[1], st), st)
+        yield SeqV(sq.elem, sq.arr, z3.If(c, sq.n, 0)), st
+
     def bi_is_none(self, e, st):
         v = self.ev1(e.args[0], st)
         yield SV(BOOL, self.equal(v, SV(NONE, NONEV), st)), st
@@ -688,9 +697,23 @@ class CallMixin:
         for (vs, kw), s in self.ev_args(e, st):
             pre = s.copy()
             mods = [vs[i] for i in model.get('modifies', [])]
+            for i in model.get('modifies_elements', []):
+                sq = self.seq_of(vs[i], s)
+                if model.get('modifies_elements_if'):
+                    g, sides = self.spec_bool(model['modifies_elements_if'], s)
+                    s.assume(*sides)
+                    sq = SeqV(sq.elem, sq.arr, z3.If(g, sq.n, 0))
+                mods.append(sq)
             if mods:
                 for mv in mods:
-                    self.check_write(s, mv.z, e, 'callback')
+                    if isinstance(mv, SeqV):
+                        j = fresh('j_fr', I)
+                        el = z3.Select(mv.arr, j)
+                        ok = z3.Or(z3.Not(z3.Select(self.entry.H(key_alloc()), el)), *[self.in_mod(el, mm) for mm in self.modset])
+                        self.oblige('frame.' + self.label('callback.elements', e), s, z3.Implies(z3.And(0 <= j, j < mv.n), ok), e, kind='frame',
+                                    text='callback may write the elements of its argument; each must be fresh or in modifies')
+                    else:
+                        self.check_write(s, mv.z, e, 'callback')
                 self.havoc_after_call(s, pre, mods)
             from .ty import parse_type as _pt
             res = fresh_sv('cb', _pt(model.get('returns', 'any')))
@@ -776,6 +799,14 @@ class CallMixin:
             v, sides = self.spec(m, st, env=env, old=st)
             st.assume(*sides)
             mods.append(v)
+            if not self.specmode and isinstance(v, SeqV):
+                # elements(xs): every element must be writable by the caller
+                i = fresh('i_fr', I)
+                el = z3.Select(v.arr, i)
+                fresh_here = z3.Not(z3.Select(self.entry.H(key_alloc()), el))
+                ok = z3.Or(fresh_here, *[self.in_mod(el, mm) for mm in self.modset])
+                self.oblige('frame.' + self.label('call.%s.elements' % tag, node), st, z3.Implies(z3.And(0 <= i, i < v.n), ok), node, kind='frame',
+                            text='callee may write the elements of %s; each must be fresh or in modifies' % m)
             if not self.specmode and not isinstance(v, SeqV):
                 if constructing is not None and z3.eq(v.z, constructing.z):
                     continue
@@ -822,7 +853,9 @@ class CallMixin:
         """heap components that hold state of the object denoted by v (by its static type)"""
         from .state import _key_sorts
         if isinstance(v, SeqV):
-            return []
+            if not v.elem.is_ref:
+                return []
+            return self.keys_of(SV(v.elem, NULL))
         t = v.ty.args[0] if v.ty.kind == 'opt' else v.ty
         if t.kind == 'obj':
             cls = set(self.reg.mro(t.args[0])) | set(self.reg.subclasses(t.args[0]))
@@ -838,7 +871,6 @@ class CallMixin:
     def havoc_after_call(self, post, pre, mods):
         from .state import _key_sorts, key_sort
         r = z3.Const('r!fc', Ref)
-        notmod = [r != m.z for m in mods if not isinstance(m, SeqV)]
         pre_alloc = pre.H(key_alloc())
         keys = []
         for m in mods:
@@ -850,6 +882,7 @@ class CallMixin:
                 continue
             old = pre.H(key)
             new = fresh('H_' + '_'.join(key), key_sort(key))
+            notmod = [z3.Not(self.in_mod(r, m)) for m in mods if key in self.keys_of(m)]     # only objects whose state lives in this component
             post.assume(z3.ForAll([r], z3.Implies(z3.And(z3.Select(pre_alloc, r), *notmod), z3.Select(new, r) == z3.Select(old, r)),
                                   patterns=[z3.Select(new, r)]))
             post.setH(key, new)
